@@ -8,17 +8,16 @@ Definition after (s : jst) (pre : list xev) : jst := fold_left (fun s e => step_
 
 Lemma judge_reflects_gen log : forall s,
   judge s log = true <->
-  (forall pre t vm u b post, log = pre ++ XStartBegin t vm u b :: post ->
-     start_ok (after s pre) t vm u b = true \/ known_f21b (after s pre) t vm u b = true).
+  (forall pre t vm u b post, log = pre ++ XStartBegin t vm u b :: post -> start_ok (after s pre) t vm u b = true).
 Proof.
   induction log as [|e r IH]; intros s; cbn [judge].
   - split; [|reflexivity]. intros _ pre t vm u b post E. destruct pre; discriminate.
   - rewrite andb_true_iff, IH. split.
     + intros [H1 H2] pre t vm u b post E. destruct pre as [|x pre]; cbn [app] in E.
-      * injection E as -> ->. apply orb_true_iff. exact H1.
+      * injection E as -> ->. exact H1.
       * injection E as -> ->. cbn [after fold_left]. apply (H2 pre t vm u b post). reflexivity.
     + intros H. split.
-      * destruct e; try reflexivity. apply orb_true_iff. apply (H [] t vm u vm_booting r). reflexivity.
+      * destruct e; try reflexivity. apply (H [] t vm u vm_booting r). reflexivity.
       * intros pre t vm u b post E. apply (H (e :: pre) t vm u b post). cbn [app]. rewrite E. reflexivity.
 Qed.
 
@@ -71,22 +70,8 @@ Example judge_rejects_drained :
   judge j0 [XLock 1 7; XInst 5 1 2 2; XStartBegin 5000 1 7 false] = false.
 Proof. vm_compute. reflexivity. Qed.
 
-(* the trigger predicate of F21b is narrow: it never excuses a double start, a start on a booting / drained
-   VM or of a cancelled container, and it needs the Unlock-Lock-Unlock pattern within the window *)
-Theorem known_f21b_narrow s t vm u b :
-  known_f21b s t vm u b = true ->
-  ~ In u (map snd (j_live s)) /\ ~ In u (map snd (j_infl s)) /\ b = false /\ ~ In u (j_locked s) /\
-  exists t1 t2 t3 rest, hist_of u (j_hist s) = (false, t3) :: (true, t2) :: (false, t1) :: rest /\ t <= t2 + f21b_window.
-Proof.
-  unfold known_f21b. rewrite !andb_true_iff, negb_true_iff. intros [[Hl Hs] Hh].
-  apply start_ok_spec in Hs. cbn [j_live j_infl] in Hs. destruct Hs as (A & B & _ & _ & E & _).
-  split; [exact A|]. split; [exact B|]. split; [exact E|]. split.
-  - intros Hin. apply memN_spec in Hin. congruence.
-  - destruct (hist_of u (j_hist s)) as [|[[|] t3] [|[[|] t2] [|[[|] t1] rest]]]; try discriminate.
-    exists t1, t2, t3, rest. split; [reflexivity|apply Z.leb_le; exact Hh].
-Qed.
-Example judge_flags_f21b_pattern :
-  known_hits j0 [XLock 1 7; XUnlock 50 7; XLock 52 7; XUnlock 53 7; XStartBegin 54 1 7 false] = true /\
-  judge j0 [XLock 1 7; XUnlock 50 7; XLock 52 7; XUnlock 53 7; XStartBegin 54 1 7 false] = true /\
-  judge j0 [XLock 1 7; XUnlock 53 7; XStartBegin 54 1 7 false] = false.
-Proof. vm_compute. repeat split. Qed.
+(* the pattern of the former finding F21 (the dispatcher unlocks a container it has just re-locked and is
+   starting) is a violation for the judge *)
+Example judge_rejects_f21_pattern :
+  judge j0 [XLock 1 7; XUnlock 50 7; XLock 52 7; XUnlock 53 7; XStartBegin 54 1 7 false] = false.
+Proof. vm_compute. reflexivity. Qed.
